@@ -1,5 +1,6 @@
 import RoutinatorModel.Model.Paths
 import RoutinatorModel.Model.Dubious
+import RoutinatorModel.Model.Collector
 import RoutinatorModel.Drv.Util
 import RoutinatorModel.Drv.Sha256
 /-! Driver components of group "collect": `c30` (paths). -/
@@ -135,6 +136,27 @@ def runC31 (arg : String) : String :=
     | "1", some reqs => runC31Reqs true reqs
     | "0", some reqs => runC31Reqs false reqs
     | _, _ => "bad-op"
+  | _ => "bad-op"
+
+/-! ## c29 -/
+open RoutinatorModel.Collector in
+/-- `c29 <never|stale|new> <rrdp 0/1> <rsync 0/1> <notify 0/1> <updated|current|stale|unavailable>` -/
+def runC29 (arg : String) : String :=
+  let bool? : String → Option Bool := fun w => if w == "1" then some true else if w == "0" then some false else none
+  match words arg with
+  | [p, re, rs, hn, o] =>
+    let p? : Option Policy := match p with
+      | "never" => some .never | "stale" => some .stale | "new" => some .new | _ => none
+    let o? : Option Outcome := match o with
+      | "updated" => some .updated | "current" => some .current | "stale" => some .stale
+      | "unavailable" => some .unavailable | _ => none
+    match p?, bool? re, bool? rs, bool? hn, o? with
+    | some p, some re, some rs, some hn, some out =>
+      let t := match repository p re rs hn out with
+        | .rrdp => "rrdp" | .rsync => "rsync" | .none => "none"
+      let asks := asksRrdp re hn
+      s!"transport={t} asks={showBool asks} outcome={if asks then o else "-"}"
+    | _, _, _, _, _ => "bad-op"
   | _ => "bad-op"
 
 end RoutinatorModel.Drv
